@@ -224,96 +224,110 @@ def Val.callable : Val → Bool
   | .handle _ => true
   | _ => false
 
-/-- Apply a named callable to already evaluated arguments.  The log records entry into the
-Python-level functions (after successful argument binding); the raw builtins `getattr` and
-`operator.getitem` are not logged. -/
-def applyLib (name : String) (args : List RVal) (kw : List (String × RVal)) (w : World) :
-    Except Err RVal × World :=
-  let vs := args.map (·.1)
-  let kvs := kw.map (fun p => (p.1, p.2.1))
-  let entered : World := { w with log := w.log ++ [name] }
+/-- Value-level semantics of the named callables: the result, and whether the body of a
+Python-level function was entered (argument binding succeeded) — the raw builtins `getattr` and
+`operator.getitem` are never logged.  `counter` is the number of `counter()` calls so far. -/
+def libVal (name : String) (vs : List Val) (kvs : List (String × Val)) (counter : Nat) :
+    Except Err Val × Bool :=
   match name with
   | "add" =>
     match bindArgs [("a", none), ("b", none)] vs kvs with
-    | .error e => (.error e, w)
-    | .ok [.int a, .int b] => (.ok (.int (a + b), 0), entered)
-    | .ok _ => (pyErr .type, entered)
+    | .error e => (.error e, false)
+    | .ok [.int a, .int b] => (.ok (.int (a + b)), true)
+    | .ok _ => (pyErr .type, true)
   | "mul" =>
     match bindArgs [("a", none), ("b", some (.int 2))] vs kvs with
-    | .error e => (.error e, w)
-    | .ok [.int a, .int b] => (.ok (.int (a * b), 0), entered)
-    | .ok _ => (pyErr .type, entered)
+    | .error e => (.error e, false)
+    | .ok [.int a, .int b] => (.ok (.int (a * b)), true)
+    | .ok _ => (pyErr .type, true)
   | "pair" =>
     match bindArgs [("a", none), ("b", none)] vs kvs with
-    | .error e => (.error e, w)
-    | .ok [a, b] => (.ok (.tup [a, b], w.alloc), { entered with alloc := w.alloc + 1 })
-    | .ok _ => (pyErr .type, entered)
+    | .error e => (.error e, false)
+    | .ok [a, b] => (.ok (.tup [a, b]), true)
+    | .ok _ => (pyErr .type, true)
   | "len" =>
     match bindArgs [("x", none)] vs kvs with
-    | .error e => (.error e, w)
-    | .ok [.tup xs] => (.ok (.int xs.length, 0), entered)
-    | .ok [.str s] => (.ok (.int s.length, 0), entered)
-    | .ok _ => (pyErr .type, entered)
+    | .error e => (.error e, false)
+    | .ok [.tup xs] => (.ok (.int xs.length), true)
+    | .ok [.str s] => (.ok (.int s.length), true)
+    | .ok _ => (pyErr .type, true)
   | "ident" =>
     match bindArgs [("x", none)] vs kvs with
-    | .error e => (.error e, w)
-    | .ok [x] =>
-      -- the very object passed in: positional or by keyword
-      let r := match args, kw with
-        | [a], _ => a.2
-        | _, [(_, a)] => a.2
-        | _, _ => 0
-      (.ok (x, r), entered)
-    | .ok _ => (pyErr .type, entered)
+    | .error e => (.error e, false)
+    | .ok [x] => (.ok x, true)
+    | .ok _ => (pyErr .type, true)
   | "mkrec" =>
-    if !args.isEmpty then (pyErr .type, w)
-    else (.ok (.record kvs, w.alloc), { entered with alloc := w.alloc + 1 })
+    if !vs.isEmpty then (pyErr .type, false) else (.ok (.record kvs), true)
   | "counter" =>
     match bindArgs [("x", some (.int 0))] vs kvs with
-    | .error e => (.error e, w)
-    | .ok _ => (.ok (.int (w.counter + 1), 0), { entered with counter := w.counter + 1 })
+    | .error e => (.error e, false)
+    | .ok _ => (.ok (.int (counter + 1)), true)
   | "failneg" =>
     match bindArgs [("x", none)] vs kvs with
-    | .error e => (.error e, w)
-    | .ok [.int x] => if x < 0 then (pyErr .value, entered) else (.ok (.int x, 0), entered)
-    | .ok _ => (pyErr .type, entered)
+    | .error e => (.error e, false)
+    | .ok [.int x] => if x < 0 then (pyErr .value, true) else (.ok (.int x), true)
+    | .ok _ => (pyErr .type, true)
   | "getattr" =>
     -- builtin: no keyword arguments; the harness only builds the 2-argument form
-    if !kw.isEmpty then (pyErr .type, w) else
+    if !kvs.isEmpty then (pyErr .type, false) else
     match vs with
     | [o, .str n] =>
       match o with
       | .record fs =>
         match fs.find? (·.1 == n) with
-        | some (_, v) => (.ok (v, 0), w)
-        | none => (pyErr .attr, w)
-      | .handle _ => (.error .outOfModel, w)       -- handled by `applyVal` before reaching here
-      | _ => (pyErr .attr, w)
-    | _ => (pyErr .type, w)
+        | some (_, v) => (.ok v, false)
+        | none => (pyErr .attr, false)
+      | .handle _ => (.error .outOfModel, false)     -- handled by `applyMake` before reaching here
+      | _ => (pyErr .attr, false)
+    | _ => (pyErr .type, false)
   | "getitem" =>
-    if !kw.isEmpty then (pyErr .type, w) else
+    if !kvs.isEmpty then (pyErr .type, false) else
     match vs with
     | [o, k] =>
       match o, k with
       | .tup xs, .int i =>
         match pyIndex xs i with
-        | some v => (.ok (v, 0), w)
-        | none => (pyErr .index, w)
-      | .tup _, _ => (pyErr .type, w)
+        | some v => (.ok v, false)
+        | none => (pyErr .index, false)
+      | .tup _, _ => (pyErr .type, false)
       | .str s, .int i =>
         match pyIndex s.toList i with
-        | some c => (.ok (.str (String.singleton c), 0), w)
-        | none => (pyErr .index, w)
-      | .str _, _ => (pyErr .type, w)
+        | some c => (.ok (.str (String.singleton c)), false)
+        | none => (pyErr .index, false)
+      | .str _, _ => (pyErr .type, false)
       | .record fs, .str n =>
         match fs.find? (·.1 == n) with
-        | some (_, v) => (.ok (v, 0), w)
-        | none => (pyErr .key, w)
-      | .record _, _ => (pyErr .key, w)
-      | .handle _, _ => (.error .outOfModel, w)    -- handled by `applyVal`
-      | _, _ => (pyErr .type, w)
-    | _ => (pyErr .type, w)
-  | _ => (pyErr .type, w)
+        | some (_, v) => (.ok v, false)
+        | none => (pyErr .key, false)
+      | .record _, _ => (pyErr .key, false)
+      | .handle _, _ => (.error .outOfModel, false)  -- handled by `applyMake`
+      | _, _ => (pyErr .type, false)
+    | _ => (pyErr .type, false)
+  | _ => (pyErr .type, false)
+
+/-- Identity of the object `ident` returns: the very object passed in (positionally or by keyword). -/
+def identRef (args : List RVal) (kw : List (String × RVal)) : Nat :=
+  match args, kw with
+  | [a], _ => a.2
+  | _, [(_, a)] => a.2
+  | _, _ => 0
+
+/-- Apply a named callable to already evaluated arguments: `libVal` on the values, plus the
+effects on the world — the call log, the stateful counter, and the identity of the result
+(`pair`/`mkrec` allocate a new object, `ident` returns its argument, otherwise not tracked). -/
+def applyLib (name : String) (args : List RVal) (kw : List (String × RVal)) (w : World) :
+    Except Err RVal × World :=
+  let r := libVal name (args.map (·.1)) (kw.map (fun p => (p.1, p.2.1))) w.counter
+  let w1 : World := if r.2 then { w with log := w.log ++ [name] } else w
+  match r.1 with
+  | .error e => (.error e, w1)
+  | .ok v =>
+    if name == "pair" || name == "mkrec" then
+      (.ok (v, w.alloc), { w1 with alloc := w.alloc + 1 })
+    else if name == "counter" then
+      (.ok (v, 0), { w1 with counter := w.counter + 1 })
+    else if name == "ident" then (.ok (v, identRef args kw), w1)
+    else (.ok (v, 0), w1)
 
 /-! ## Evaluator state and monad -/
 
@@ -372,6 +386,11 @@ def makeKws : List (String × RVal) → M (List (String × RVal))
   | [] => pure []
   | (k, r) :: rs => do let a ← makeVal r; let as ← makeKws rs; pure ((k, a) :: as)
 
+/-- is the first positional argument a handle? -/
+def headIsHandle : List RVal → Bool
+  | (.handle _, _) :: _ => true
+  | _ => false
+
 /-- `_maybe_make(fn(*args, **kwargs))` for an already evaluated `fn` (lazy_fns.py:480).
 
 * a named callable: the library function, its result made again;
@@ -384,25 +403,19 @@ def makeKws : List (String × RVal) → M (List (String × RVal))
 def applyMake (f : RVal) (args : List RVal) (kw : List (String × RVal)) : M RVal :=
   match f.1 with
   | .fn name =>
-    match name == "getattr" || name == "getitem", args with
-    | true, ((.handle _, _) :: _) =>
-      if !kw.isEmpty || args.length != 2 then do let r ← liftLib name args kw; makeVal r else do
-        let args' ← makeVals args
-        match args' with
-        | (.handle _, _) :: _ => M.throw .outOfModel
-        | _ => do
-          let r ← liftLib name args' []
-          makeVal r
-    | _, _ => do let r ← liftLib name args kw; makeVal r
+    if (name == "getattr" || name == "getitem") && headIsHandle args && kw.isEmpty && args.length == 2 then do
+      let args' ← makeVals args
+      if headIsHandle args' then M.throw .outOfModel else do
+        let r ← liftLib name args' []
+        makeVal r
+    else do let r ← liftLib name args kw; makeVal r
   | .handle id => do
     let v ← objGet id
     match v.1 with
     | .fn name => do
       let args' ← makeVals args
       let kw' ← makeKws kw
-      let special := (name == "getattr" || name == "getitem") &&
-        (match args' with | (.handle _, _) :: _ => true | _ => false)
-      if special then M.throw .outOfModel else do
+      if (name == "getattr" || name == "getitem") && headIsHandle args' then M.throw .outOfModel else do
         let r ← liftLib name args' kw'
         makeVal r
     | .handle _ => M.throw .outOfModel
@@ -425,18 +438,15 @@ def eval : Expr → M RVal
     -- LazyObject.result_ (355-360), `cache_result` is False for a traced value
     if lazy then newHandle (v, 0) else pure (v, 0)
   | .call f args kw cache lazy =>
-    let body : M RVal := do
+    let body : M RVal :=
+      -- `if self.value is None: result = None` (472-473): a `LazyFn` without a function
+      if f = .const .none then (if lazy then newHandle (.none, 0) else pure (.none, 0)) else do
       let fv ← eval f                                          -- fn = _maybe_make(self.value)
       if !fv.1.callable then M.throw (.py .type) else do       -- 'fn is not callable'
       let as ← evalArgs args                                   -- tuple(_maybe_make(arg) ...)
       let ks ← evalKw kw                                       -- {k: _maybe_make(v) ...}
       let r ← applyMake fv as ks                               -- _maybe_make(fn(*args, **kwargs))
       if lazy then newHandle r else pure r
-    let body : M RVal :=
-      -- `if self.value is None: result = None` (472-473): a `LazyFn` without a function
-      match f with
-      | .const .none => if lazy then newHandle (.none, 0) else pure (.none, 0)
-      | _ => body
     if cache then do
       let k := (Expr.call f args kw cache lazy).key
       match ← fncGet k with
